@@ -541,6 +541,44 @@ impl<Ctx: OptCtx> TypeChecked<'_, Ctx> {
             &label_store,
         )
     }
+
+    /// Verification hook (C03): the structured dump of the MIR after
+    /// dead-code elimination together with the eliminated definitions, both
+    /// from one and the same lowering. Two lowerings of one script may
+    /// number the temporaries of a `match` differently (its guard chains are
+    /// lowered in hash-set order), so the two tables can only be related
+    /// when they come from the same one.
+    pub fn verif_c03_dump_with_eliminated(
+        &self,
+    ) -> (
+        Vec<crate::verif_hooks::c03::ItemDump>,
+        Vec<(String, Vec<(String, String)>)>,
+    ) {
+        let mut type_info = self.type_info.clone();
+        let mut label_store = LabelStore::default();
+        let before = mir::verif_lower_to_mir_without_dce(
+            &self.module_tree,
+            &self.runtime.rt,
+            &mut type_info,
+            &mut label_store,
+            &self.order,
+        );
+        let mut after = before.clone();
+        after.eliminate_dead_code();
+        let gone = crate::verif_hooks::c03::eliminated_definitions_of(
+            &before,
+            &after,
+            &type_info,
+            &label_store,
+        );
+        let mut lowered = LoweredToMir {
+            ir: after,
+            runtime: self.runtime,
+            label_store,
+            type_info,
+        };
+        (lowered.verif_c03_dump(), gone)
+    }
 }
 
 #[cfg(feature = "verif-hooks")]
